@@ -53,9 +53,10 @@ func Prioritized
 
 func IndentWidth
   ensures 0 <= pos && pos <= len(bs) && width >= 0
+  ensures [cols] pos <= width        // every indentation byte is at least one column wide
   ensures pos < len(bs) ==> (bs[pos] != ' ' && bs[pos] != '\t')
   modifies nothing
-  loop 0 inv 0 <= i && i <= l && l == len(bs) && pos == i && width >= 0
+  loop 0 inv 0 <= i && i <= l && l == len(bs) && pos == i && width >= 0 && i <= width
 
 func TrimLeftSpaceLength
   ensures 0 <= result && result <= len(source)
